@@ -24,7 +24,9 @@
     a NEW mailbox after the old one was deleted and the rowid reused).
     Result: only the class of the tagged reply (and APPENDUID's numbers).
 
-    State of the code modelled: raven at dad7e07, i.e. with the repairs fixes/c03-copy-move-uidnext.patch
+    State of the code modelled: raven at db1cde2 (incl. C11's hierarchy fixes: parents
+    created inside the RENAME transaction, children by name prefix and collected
+    before the rename, Roles namespace refused) with the repairs fixes/c03-copy-move-uidnext.patch
     (COPY, UID COPY and the Junk/NonJunk move allocate from mailboxes.uid_next
     and write it back, inside their transaction) and
     fixes/c03-rename-inbox-uidnext.patch (RENAME INBOX: the new row inherits
@@ -240,23 +242,42 @@ Definition parent_paths (name : str) : list str :=
   let parts := split_byte name SLASH in
   map (fun i => join (firstn (S i) parts) [SLASH]) (seq 0 (length parts - 1)).
 
+(** isRoleNamespace (mailbox.go): "Roles" and "Roles/..." address role mailboxes *)
+Definition ROLES : str := S_ "Roles".
+Definition is_role_ns (name : str) : bool :=
+  str_eqb name ROLES || has_prefix name (ROLES ++ [SLASH]).
+
+(** db.createParentMailboxesPerUser (and the loop of HandleCreate, which differs
+    only in ignoring every error): every missing mailbox above [name]; the empty
+    first level of "/x" and every case variant of INBOX are skipped.  The boolean
+    is [err == nil]; the only error CreateMailboxPerUser can report here besides
+    "already exists" is an SQL failure, which is not modelled. *)
+Definition create_parents (s : store) (name : str) (t : Z) : store * bool :=
+  if contains_byte name SLASH
+  then (fold_left (fun s' p =>
+          match p with
+          | [] => s'
+          | _ =>
+            if equal_fold p INBOX then s' else
+            match find_name s' p with
+            | Some _ => s'
+            | None => match create_mailbox_row s' p t with
+                      | Some (s'', _) => s'' | None => s' end
+            end
+          end) (parent_paths name) s, true)
+  else (s, true).
+
 Definition op_create (s : store) (name0 : str) (t : Z) : store * result :=
   let name := trim_suffix name0 [SLASH] in
   match name with
   | [] => (s, RNo)
   | _ =>
     if str_eqb (to_upper name) INBOX then (s, RNo) else
+    if is_role_ns name then (s, RNo) else
     match find_name s name with
     | Some _ => (s, RNo)
     | None =>
-      let s1 := if contains_byte name SLASH
-                then fold_left (fun s' p =>
-                       match find_name s' p with
-                       | Some _ => s'
-                       | None => match create_mailbox_row s' p t with
-                                 | Some (s'', _) => s'' | None => s' end
-                       end) (parent_paths name) s
-                else s in
+      let s1 := fst (create_parents s name t) in
       match create_mailbox_row s1 name t with
       | Some (s2, _) => (s2, ROk)
       | None => (s1, RNo)
@@ -280,13 +301,17 @@ Definition op_delete (s : store) (name : str) : store * result :=
       match children s name with
       | _ :: _ => (s, RNo)
       | [] =>
-        if existsb (equal_fold name) [S_ "Sent"; S_ "Drafts"; S_ "Trash"] then (s, RNo) else
+        (* exact names: "sent" is not "Sent" (raven: C11's fix) *)
+        if existsb (str_eqb name) [S_ "Sent"; S_ "Drafts"; S_ "Trash"] then (s, RNo) else
         let s1 := delete_links s (in_mbox (mb_id m)) in
         (set_mboxes s1 (filter (fun m' => negb (mb_id m' =? mb_id m)) (mboxes s1)), ROk)
       end
     end
   end.
 
+(** db.renameInboxPerUser: parents (autocommit, they stay if a later step fails),
+    the target row, then ONE transaction: the target inherits INBOX's uid_next
+    and the links are re-parented *)
 Definition rename_inbox (s : store) (new : str) (t : Z) : store * result :=
   match find_name s new with
   | Some _ => (s, RNo)
@@ -294,10 +319,11 @@ Definition rename_inbox (s : store) (new : str) (t : Z) : store * result :=
     match find_name s INBOX with
     | None => (s, RNo)
     | Some ib =>
-      match create_mailbox_row s new t with
-      | None => (s, RNo)
+      let '(s0, ok) := create_parents s new t in
+      if negb ok then (s0, RNo) else
+      match create_mailbox_row s0 new t with
+      | None => (s0, RNo)
       | Some (s1, nid) =>
-        (* transaction: the new row inherits INBOX's uid_next; links re-parented *)
         match reparent (set_next s1 nid (mb_next ib)) (mb_id ib) nid with
         | Some s2 => (s2, ROk)
         | None => (s1, RNo)
@@ -306,8 +332,10 @@ Definition rename_inbox (s : store) (new : str) (t : Z) : store * result :=
     end
   end.
 
-(** the transaction of RenameMailboxPerUser *)
+(** the transaction of RenameMailboxPerUser after the parents were created in it:
+    the children are collected BEFORE the mailbox itself is renamed (RENAME a a/b) *)
 Definition rename_tx (s : store) (mb : Z) (old new : str) : option store :=
+  let ch := children s old in
   match rename_row s mb new with
   | None => None
   | Some s1 =>
@@ -316,13 +344,14 @@ Definition rename_tx (s : store) (mb : Z) (old new : str) : option store :=
                  | None => None
                  | Some s' => rename_row s' (mb_id c) (new ++ skipn (length old) (mb_name c))
                  end)
-              (children s1 old) (Some s1)
+              ch (Some s1)
   end.
 
 Definition op_rename (s : store) (old new : str) (t : Z) : store * result :=
   match old, new with
   | [], _ | _, [] => (s, RBad)
   | _, _ =>
+    if is_role_ns new then (s, RNo) else
     if str_eqb (to_upper new) INBOX then (s, RNo) else
     if str_eqb (to_upper old) INBOX then rename_inbox s new t else
     match find_name s old with
@@ -331,23 +360,12 @@ Definition op_rename (s : store) (old new : str) (t : Z) : store * result :=
       match find_name s new with
       | Some _ => (s, RNo)
       | None =>
-        (* intermediate hierarchy; an error other than "already exists" aborts *)
-        let '(s1, ok) :=
-          if contains_byte new SLASH
-          then fold_left (fun '(s', ok) p =>
-                 if negb ok then (s', ok) else
-                 match find_name s' p with
-                 | Some _ => (s', true)
-                 | None => match create_mailbox_row s' p t with
-                           | Some (s'', _) => (s'', true)
-                           | None => (s', match p with [] => false | _ => true end)
-                           end
-                 end) (parent_paths new) (s, true)
-          else (s, true) in
-        if negb ok then (s1, RNo) else
+        (* BEGIN; parents, children, renames; any failure rolls everything back *)
+        let '(s1, ok) := create_parents s new t in
+        if negb ok then (s, RNo) else
         match rename_tx s1 (mb_id m) old new with
         | Some s2 => (s2, ROk)
-        | None => (s1, RNo)
+        | None => (s, RNo)
         end
       end
     end
